@@ -103,6 +103,12 @@ def truthy(v: Val):
         return z3.And(s.is_some(v.term), z3bool(inner))
     if isinstance(t, T.Tuple):
         return len(t.items) != 0
+    if isinstance(t, T.Enum):
+        if issubclass(t.pycls(), int):
+            return lift(coerce(v, T.INT)) != 0
+        if "__bool__" in t.pycls().__dict__ or "__len__" in t.pycls().__dict__:
+            raise Unsupported(f"truthiness of {t} (the enum class defines __bool__/__len__)")
+        return True  # enum members are truthy
     if isinstance(t, T.Ref):
         return None  # class decides
     if isinstance(t, T.Union):
@@ -118,6 +124,10 @@ def truthy(v: Val):
 
 
 def num_join(a: Val, b: Val):
+    if isinstance(a.ty, T.Enum) and not a.is_py:
+        a = coerce(a, T.INT)
+    if isinstance(b.ty, T.Enum) and not b.is_py:
+        b = coerce(b, T.INT)
     ta, tb = a.ty, b.ty
     if ta == T.BOOL:
         a = coerce(a, T.INT)
@@ -285,6 +295,8 @@ def equal(a: Val, b: Val):
         raise Unsupported("comparison of an iterator / dict view (wrap it in list(..) / set(..))")
     if is_const(a) and is_const(b):
         return a.py == b.py
+    if a.is_py and b.is_py and isinstance(a.ty, T.Enum) and isinstance(b.ty, T.Enum):
+        return a.py == b.py
     if a.ty is PYOBJ or b.ty is PYOBJ:
         if a.is_py and b.is_py and not _has_val(a.py) and not _has_val(b.py):
             return a.py == b.py
@@ -295,6 +307,10 @@ def equal(a: Val, b: Val):
             return equal(a, coerce(b, a.ty))
         raise Unsupported("equality between python-level objects")
     ta, tb = a.ty, b.ty
+    if isinstance(ta, T.Enum) and not isinstance(tb, T.Enum) and not a.is_py and issubclass(ta.pycls(), int) and tb in (T.INT, T.REAL, T.BOOL):
+        return equal(coerce(a, T.INT), b)  # IntEnum member == number
+    if isinstance(tb, T.Enum) and not isinstance(ta, T.Enum) and not b.is_py and issubclass(tb.pycls(), int) and ta in (T.INT, T.REAL, T.BOOL):
+        return equal(a, coerce(b, T.INT))
     if ta == tb:
         if isinstance(ta, T.Dict):
             return dict_eq(a, b)
@@ -430,6 +446,8 @@ def is_(a: Val, b: Val, node=None):
         return is_(b, a, node)
     if a.is_py and b.is_py:
         return a.py is b.py
+    if isinstance(a.ty, T.Enum) and a.ty == b.ty:
+        return lift(a) == lift(b)  # enum members are singletons: identity is equality
     if isinstance(a.ty, T.Ref) and isinstance(b.ty, T.Ref):
         return a.term == b.term
     if a.ty == T.BOOL and b.ty == T.BOOL:
